@@ -34,7 +34,12 @@ def collinear_positions(rng, n, kind):
         d = rng.choice([[1, 1, 0], [1, 0, 1], [0, 1, 1], [1, 1, 1], [1, -1, 0], [1, -1, 1], [-1, -1, -1]])
     else:
         while True:
-            d = [rng.randint(-5, 5) for _ in range(3)]
+            if rng.random() < 0.4:
+                # inside the cone around a coordinate axis, but not on it
+                d = [rng.randint(-2, 2) for _ in range(3)]
+                d[rng.randrange(3)] = rng.choice([-1, 1]) * rng.randint(5, 9)
+            else:
+                d = [rng.randint(-5, 5) for _ in range(3)]
             if any(d):
                 break
     q = rng.choice([3, 4, 5])
